@@ -3,7 +3,7 @@
 // Contracts for package device, read by the hv verifier (/verif). Comment-only file: compiles to nothing.
 package device
 
-// ---- ghost receiver state, updated at every send on Device.outputEvents
+// ---- ghost receiver state, updated at every send on Device.outputEvents (so new send sites are covered automatically)
 //@ ghost var out fun[int]Ev
 //@ ghost var outLen int
 //@ ghost var sounding fun[byte]set[byte]
@@ -12,6 +12,10 @@ package device
 //@ on send Device.outputEvents(e) { out = upd(out, outLen, evOf(e)); outLen = outLen + 1; sounding = rx(sounding, evOf(e)) }
 //@ on send Device.sigs(s) { sigs = sigs + 1 }
 
+// C05: every emitted message is a complete three-byte channel message with valid status and data bytes
+//@ sendassert Device.outputEvents(e) [C05] len(e) == 3 && (e[0] & 0xF0 == 0x80 || e[0] & 0xF0 == 0x90 || e[0] & 0xF0 == 0xB0 || e[0] & 0xF0 == 0xE0) && e[1] <= 127 && e[2] <= 127
+
+// receiver model: what a MIDI receiver has sounding after a message
 //@ spec fn rx(s fun[byte]set[byte], e Ev) fun[byte]set[byte] :=
 //@   let st := e.b0 & 0xF0 in let ch := e.b0 & 0x0F in
 //@   if st == 0x90 && e.b2 > 0 then upd(s, ch, upd(s[ch], e.b1, true))
@@ -22,6 +26,7 @@ package device
 //@ pred modeOK(m config.CollisionMode) :=
 //@   m == config.CollisionOff || m == config.CollisionNoRepeat || m == config.CollisionInterrupt || m == config.CollisionRetrigger
 
+// data-structure well-formedness: established by NewDevice, preserved by every method
 //@ pred wf(d *Device) :=
 //@   d != nil && d.channel < 16 && d.velocity >= 1 && d.velocity <= 127
 //@   && d.mapping >= 0 && d.mapping < len(d.config.KeyMappings)
@@ -30,7 +35,45 @@ package device
 //@   && (forall ch byte :: ch < 16 ==> has(d.activeNotesCounter, ch) && d.activeNotesCounter[ch] != nil)
 //@   && (forall c1 byte, c2 byte :: c1 < 16 && c2 < 16 && c1 != c2 ==> d.activeNotesCounter[c1] != d.activeNotesCounter[c2])
 //@   && (forall k evdev.EvCode :: has(d.noteTracker, k) ==> d.noteTracker[k][0] <= 127 && d.noteTracker[k][1] < 16)
+//@   && (forall s string :: has(d.analogNoteTracker, s) ==> d.analogNoteTracker[s][0] <= 127 && d.analogNoteTracker[s][1] < 16)
 //@   && modeOK(d.config.CollisionMode)
+
+// history invariant (C01, C03): counters count the holders; everything sounding has a holder
+//@ pred counted(d *Device) :=
+//@   forall ch byte, n byte :: ch < 16 && n < 128 ==> d.activeNotesCounter[ch][n] == cnt(d.noteTracker, mkarr(n, ch))
+//@ pred held(d *Device) :=
+//@   forall ch byte, n byte :: sounding[ch][n] ==> ch < 16 && n < 128 && (d.activeNotesCounter[ch][n] >= 1 || cnt(d.analogNoteTracker, mkarr(n, ch)) >= 1)
+//@ pred InvCore(d *Device) := wf(d) && counted(d) && held(d)
+
+// ---- NoteOn / NoteOff
+
+//@ func (*Device).NoteOn
+//@   requires wf(d) && ev != nil
+//@   let code := ev.Event.Code
+//@   let mapped := has(d.config.KeyMappings[d.mapping].Midi[ev.Source.Name], code)
+//@   let key := d.config.KeyMappings[d.mapping].Midi[ev.Source.Name][code]
+//@   let s := int64(key.Note) + 12 * int64(d.octave) + int64(d.semitone)
+//@   let sounds := mapped && s >= 0 && s <= 127
+//@   let n := byte(s)
+//@   let ch := (d.channel + key.ChannelOffset) % 16
+//@   let c := d.activeNotesCounter[ch][n]
+//@   let mode := d.config.CollisionMode
+//@   let onEv := mkev(0x90 | ch, n, d.velocity)
+//@   let offEv := mkev(0x80 | ch, n, 0)
+//@   let quiet := mode == config.CollisionNoRepeat && c > 0
+//@   let cut := mode == config.CollisionInterrupt && c > 0
+//@   ensures [C04] !sounds ==> outLen == old(outLen) && out == old(out)
+//@   ensures [C04] !sounds ==> keys(d.noteTracker) == old(keys(d.noteTracker)) && vals(d.noteTracker) == old(vals(d.noteTracker))
+//@   ensures [C04] !sounds ==> keys(d.activeNotesCounter[ch]) == old(keys(d.activeNotesCounter[ch])) && vals(d.activeNotesCounter[ch]) == old(vals(d.activeNotesCounter[ch]))
+//@   ensures [C03] sounds && quiet ==> outLen == old(outLen) && out == old(out)
+//@   ensures [C03,C04] sounds && !quiet && !cut ==> outLen == old(outLen) + 1 && out == upd(old(out), old(outLen), onEv)
+//@   ensures [C03,C04] sounds && cut ==> outLen == old(outLen) + 2 && out == upd(upd(old(out), old(outLen), offEv), old(outLen) + 1, onEv)
+//@   ensures [C02,C03] sounds ==> keys(d.noteTracker) == upd(old(keys(d.noteTracker)), code, true) && vals(d.noteTracker) == upd(old(vals(d.noteTracker)), code, mkarr(n, ch))
+//@   ensures [C03] sounds ==> keys(d.activeNotesCounter[ch]) == upd(old(keys(d.activeNotesCounter[ch])), n, true) && vals(d.activeNotesCounter[ch]) == upd(old(vals(d.activeNotesCounter[ch])), n, c + 1)
+//@   ensures wf(d)
+//@   ensures [C01,C03] old(InvCore(d)) && !old(has(d.noteTracker, code)) ==> InvCore(d)
+//@   safety [C01,C05]
+//@   modifies d.noteTracker[_], d.activeNotesCounter[ch][_], out, outLen, sounding
 
 //@ func (*Device).NoteOff
 //@   requires wf(d) && ev != nil
@@ -43,8 +86,203 @@ package device
 //@   ensures [C02] !tracked ==> outLen == old(outLen) && out == old(out)
 //@   ensures [C02,C03] tracked && (!managed || c == 1) ==> outLen == old(outLen) + 1 && out == upd(old(out), old(outLen), mkev(0x80 | ch, note, 0))
 //@   ensures [C03] tracked && managed && c != 1 ==> outLen == old(outLen) && out == old(out)
-//@   ensures [C01,C02] !has(d.noteTracker, code)
-//@   ensures [C03] tracked ==> d.activeNotesCounter[ch][note] == c - 1
+//@   ensures [C01,C02] keys(d.noteTracker) == upd(old(keys(d.noteTracker)), code, false) && vals(d.noteTracker) == old(vals(d.noteTracker))
+//@   ensures [C03] tracked ==> keys(d.activeNotesCounter[ch]) == upd(old(keys(d.activeNotesCounter[ch])), note, true) && vals(d.activeNotesCounter[ch]) == upd(old(vals(d.activeNotesCounter[ch])), note, c - 1)
+//@   ensures [C03] !tracked ==> keys(d.activeNotesCounter[ch]) == old(keys(d.activeNotesCounter[ch])) && vals(d.activeNotesCounter[ch]) == old(vals(d.activeNotesCounter[ch]))
 //@   ensures wf(d)
-//@   safety [C01]
-//@   modifies d.noteTracker[_], d.activeNotesCounter[_][_], out, outLen, sounding
+//@   ensures [C01,C03] old(InvCore(d)) ==> InvCore(d)
+//@   safety [C01,C05]
+//@   modifies d.noteTracker[_], d.activeNotesCounter[ch][_], out, outLen, sounding
+
+// ---- analog (key-emulating axis) notes
+
+//@ func (*Device).AnalogNoteOn
+//@   requires wf(d) && ev != nil
+//@   let s := int64(note) + 12 * int64(d.octave) + int64(d.semitone)
+//@   let sounds := s >= 0 && s <= 127
+//@   let n := byte(s)
+//@   let ch := (d.channel + channelOffset) % 16
+//@   ensures [C04,C08] !sounds ==> outLen == old(outLen) && out == old(out) && keys(d.analogNoteTracker) == old(keys(d.analogNoteTracker)) && vals(d.analogNoteTracker) == old(vals(d.analogNoteTracker))
+//@   ensures [C04,C08] sounds ==> outLen == old(outLen) + 1 && out == upd(old(out), old(outLen), mkev(0x90 | ch, n, 64))
+//@   ensures [C02,C08] sounds ==> keys(d.analogNoteTracker) == upd(old(keys(d.analogNoteTracker)), identifier, true) && vals(d.analogNoteTracker) == upd(old(vals(d.analogNoteTracker)), identifier, mkarr(n, ch))
+//@   ensures wf(d)
+//@   ensures [C01,C08] old(InvCore(d)) && !old(has(d.analogNoteTracker, identifier)) ==> InvCore(d)
+//@   safety [C01,C05]
+//@   modifies d.analogNoteTracker[_], out, outLen, sounding
+
+//@ func (*Device).AnalogNoteOff
+//@   requires wf(d) && ev != nil
+//@   let tracked := has(d.analogNoteTracker, identifier)
+//@   let note := d.analogNoteTracker[identifier][0]
+//@   let ch := d.analogNoteTracker[identifier][1]
+//@   ensures [C02,C08] !tracked ==> outLen == old(outLen) && out == old(out)
+//@   ensures [C02,C08] tracked ==> outLen == old(outLen) + 1 && out == upd(old(out), old(outLen), mkev(0x80 | ch, note, 0))
+//@   ensures [C01,C02,C08] keys(d.analogNoteTracker) == upd(old(keys(d.analogNoteTracker)), identifier, false) && vals(d.analogNoteTracker) == old(vals(d.analogNoteTracker))
+//@   ensures wf(d)
+//@   ensures [C01,C08] old(InvCore(d)) ==> InvCore(d)
+//@   safety [C01,C05]
+//@   modifies d.analogNoteTracker[_], out, outLen, sounding
+
+// ---- state actions: they emit nothing (frame: out, outLen, sounding are not in `modifies`) and change only their own parameter
+
+//@ func (*Device).OctaveDown
+//@   requires wf(d)
+//@   ensures [C04] old(d.octave) > -128 ==> d.octave == old(d.octave) - 1
+//@   ensures wf(d)
+//@   safety [C04]
+//@   modifies d.octave
+
+//@ func (*Device).OctaveUp
+//@   requires wf(d)
+//@   ensures [C04] old(d.octave) < 127 ==> d.octave == old(d.octave) + 1
+//@   ensures wf(d)
+//@   safety [C04]
+//@   modifies d.octave
+
+//@ func (*Device).OctaveReset
+//@   requires wf(d)
+//@   ensures [C04] d.octave == 0
+//@   ensures wf(d)
+//@   safety [C04]
+//@   modifies d.octave
+
+//@ func (*Device).SemitoneDown
+//@   requires wf(d)
+//@   ensures [C04] old(d.semitone) > -128 ==> d.semitone == old(d.semitone) - 1
+//@   ensures wf(d)
+//@   safety [C04]
+//@   modifies d.semitone
+
+//@ func (*Device).SemitoneUp
+//@   requires wf(d)
+//@   ensures [C04] old(d.semitone) < 127 ==> d.semitone == old(d.semitone) + 1
+//@   ensures wf(d)
+//@   safety [C04]
+//@   modifies d.semitone
+
+//@ func (*Device).SemitoneReset
+//@   requires wf(d)
+//@   ensures [C04] d.semitone == 0
+//@   ensures wf(d)
+//@   safety [C04]
+//@   modifies d.semitone
+
+//@ func (*Device).MappingDown
+//@   requires wf(d)
+//@   ensures [C04] d.mapping == (if old(d.mapping) == 0 then 0 else old(d.mapping) - 1)
+//@   ensures wf(d)
+//@   safety [C04]
+//@   modifies d.mapping
+
+//@ func (*Device).MappingUp
+//@   requires wf(d)
+//@   ensures [C04] d.mapping == (if old(d.mapping) == len(d.config.KeyMappings) - 1 then old(d.mapping) else old(d.mapping) + 1)
+//@   ensures wf(d)
+//@   safety [C04]
+//@   modifies d.mapping
+
+//@ func (*Device).MappingReset
+//@   requires wf(d)
+//@   ensures [C04] d.mapping == 0
+//@   ensures wf(d)
+//@   safety [C04]
+//@   modifies d.mapping
+
+//@ func (*Device).ChannelDown
+//@   requires wf(d)
+//@   ensures [C04] d.channel == (if old(d.channel) == 0 then 0 else old(d.channel) - 1)
+//@   ensures wf(d)
+//@   safety [C04]
+//@   modifies d.channel
+
+//@ func (*Device).ChannelUp
+//@   requires wf(d)
+//@   ensures [C04] d.channel == (if old(d.channel) == 15 then 15 else old(d.channel) + 1)
+//@   ensures wf(d)
+//@   safety [C04]
+//@   modifies d.channel
+
+//@ func (*Device).ChannelReset
+//@   requires wf(d)
+//@   ensures [C04] d.channel == 0
+//@   ensures wf(d)
+//@   safety [C04]
+//@   modifies d.channel
+
+//@ func (*Device).CCLearningOn
+//@   requires wf(d)
+//@   ensures [C07] d.ccLearning
+//@   ensures wf(d)
+//@   modifies d.ccLearning
+
+//@ func (*Device).CCLearningOff
+//@   requires wf(d)
+//@   ensures [C07] !d.ccLearning
+//@   ensures wf(d)
+//@   modifies d.ccLearning
+
+// the no-op registered for the multinote key press
+//@ func NewDevice$1
+//@   modifies nothing
+
+//@ func (*Device).Multinote
+//@   requires wf(d)
+//@   ensures wf(d)
+//@   modifies d.multiNote, heap("[]int"), heap("*[1]int")
+
+// ---- panic (C13): All Notes Off + 128 explicit Note Offs on the current channel, nothing else; playing state untouched (frame)
+
+//@ func (*Device).Panic
+//@   requires wf(d)
+//@   let ch := d.channel
+//@   ensures [C13] outLen == old(outLen) + 129
+//@   ensures [C13] out[old(outLen)] == mkev(0xB0 | ch, 123, 0)
+//@   ensures [C13] forall n int :: 0 <= n && n < 128 ==> out[old(outLen) + 1 + n] == mkev(0x80 | ch, byte(n), 0)
+//@   ensures [C13] forall i int :: uint64(i - old(outLen)) >= 129 ==> out[i] == old(out)[i]
+//@   ensures [C01,C13] sounding == upd(old(sounding), ch, emptyset("set[byte]"))
+//@   ensures wf(d)
+//@   ensures [C01] old(InvCore(d)) ==> InvCore(d)
+//@   loop 1 invariant note <= 128
+//@   loop 1 invariant outLen == old(outLen) + 1 + int(note)
+//@   loop 1 invariant out[old(outLen)] == mkev(0xB0 | ch, 123, 0)
+//@   loop 1 invariant forall n int :: 0 <= n && n < int(note) ==> out[old(outLen) + 1 + n] == mkev(0x80 | ch, byte(n), 0)
+//@   loop 1 invariant forall i int :: uint64(i - old(outLen)) >= uint64(1 + int(note)) ==> out[i] == old(out)[i]
+//@   loop 1 invariant sounding == upd(old(sounding), ch, emptyset("set[byte]"))
+//@   safety [C05,C13]
+//@   modifies out, outLen, sounding, d.externalNoteTracker, heap("map[byte]map[byte]bool"), heap("map[byte]bool")
+
+// ---- pair detection (C04): both keys of an up/down pair held resets that parameter, in this priority order
+
+//@ pred pairMapping(d *Device) := d.actionTracker[config.MappingUp] && d.actionTracker[config.MappingDown]
+//@ pred pairOctave(d *Device) := d.actionTracker[config.OctaveUp] && d.actionTracker[config.OctaveDown]
+//@ pred pairSemitone(d *Device) := d.actionTracker[config.SemitoneUp] && d.actionTracker[config.SemitoneDown]
+//@ pred pairChannel(d *Device) := d.actionTracker[config.ChannelUp] && d.actionTracker[config.ChannelDown]
+
+//@ func (*Device).checkDoubleActions
+//@   requires wf(d)
+//@   let mp := pairMapping(d)
+//@   let oc := !mp && pairOctave(d)
+//@   let se := !mp && !oc && pairSemitone(d)
+//@   let cn := !mp && !oc && !se && pairChannel(d)
+//@   ensures [C04] result == (mp || oc || se || cn)
+//@   ensures [C04] d.mapping == (if mp then 0 else old(d.mapping))
+//@   ensures [C04] d.octave == (if oc then 0 else old(d.octave))
+//@   ensures [C04] d.semitone == (if se then 0 else old(d.semitone))
+//@   ensures [C04] d.channel == (if cn then 0 else old(d.channel))
+//@   ensures wf(d)
+//@   safety [C04]
+//@   modifies d.mapping, d.octave, d.semitone, d.channel
+
+// ---- exit sequence (C14)
+
+//@ func (*Device).checkExitSequence
+//@   requires wf(d)
+//@   let seq := d.config.ExitSequence
+//@   let complete := len(seq) > 0 && (forall i int :: 0 <= i && i < len(seq) ==> has(d.keyTracker, seq[i]))
+//@   ensures [C14] result == complete
+//@   ensures [C14] sigs == old(sigs) + (if complete then 1 else 0)
+//@   loop 1 invariant 0 <= idx() && idx() <= len(d.config.ExitSequence)
+//@   loop 1 invariant forall j int :: 0 <= j && j < idx() ==> has(d.keyTracker, d.config.ExitSequence[j])
+//@   loop 1 invariant sigs == old(sigs)
+//@   safety [C14]
+//@   modifies sigs
